@@ -355,7 +355,8 @@ def run_history(case, pool, mode, viols, pass_name):
 
             def probes():
                 b_ = list(pool["basis"])
-                out_ = [cm.call(overlap_integral, b_), cm.call(_kin2, b_), cm.call(_eb, b_, np.array(pool["pts"]))]
+                out_ = [cm.call(overlap_integral, b_), cm.call(_kin2, b_), cm.call(_eb, b_, np.array(pool["pts"])),
+                        cm.call(overlap_integral, b_, tol_screen=1e-1), cm.call(overlap_integral, b_, tol_screen=1e-6)]
                 for sh_ in b_:
                     out_.append(np.array(sh_.angmom_components_cart))
                     out_.append(np.array(sh_.norm_prim_cart))
@@ -365,6 +366,15 @@ def run_history(case, pool, mode, viols, pass_name):
             before = probes()
             rs_ = bases.rng_for("C19scramble", k, *o["r"])
             handed = [overlap_integral(list(pool["basis"]))]
+            from gbasis.integrals.overlap import Overlap as _Ov
+
+            bl_ = list(pool["basis"])
+            for ia_ in range(len(bl_)):
+                for ib_ in range(len(bl_)):
+                    for tol_ in (None, 1e-1, 1e-6):  # blocks handed out by the public kernel, screened or not
+                        blk_ = cm.call(_Ov.construct_array_contraction, bl_[ia_], bl_[ib_], tol_screen=tol_)
+                        if isinstance(blk_, np.ndarray):
+                            handed.append(blk_)
             for sh_ in pool["basis"]:
                 handed += [sh_.angmom_components_cart, sh_.norm_prim_cart, _gt(int(sh_.angmom), sh_.angmom_components_cart, tuple(sh_.angmom_components_sph), "left")]
             nscr = 0
@@ -373,6 +383,7 @@ def run_history(case, pool, mode, viols, pass_name):
                     try:
                         rs_.shuffle(arr)  # in place, first axis
                         arr *= 3
+                        arr += 1
                         nscr += 1
                     except Exception:  # noqa: BLE001
                         pass
